@@ -490,6 +490,10 @@ class AI:
             return ("closure", t["key"], ())
         if "str" in k:
             return ("str", k["str"])
+        if "pbytes" in k:
+            tpl = M.fmt_template(k["pbytes"])
+            if tpl is not None:
+                return ("ref", ("X", "str:" + tpl), ())
         if "v" in k:
             v = k["v"]
             if t["k"] == "prim":
